@@ -26,6 +26,7 @@ REQUIRED = {
     "softmax_rows": 20, "gaussian_rows": 20, "tanh_gaussian_rows": 20,
     "entropy_checks": 30, "noise_invariance_checks": 20, "greedy_checks": 100,
     "loop_steps_checked": 200, "shape_combinations": 20,
+    "batch_row_independence_checks": 6,
 }
 TIMEOUT = {"quick": 1200, "thorough": 7000}
 ASSUMPTIONS = ["float32 outputs vs float64 closed forms: rtol 1e-4, atol 1e-4",
@@ -43,8 +44,8 @@ def gen_cases(tier, seed):
             for A in (1, 2, 4):
                 for r in range(2 * k):
                     cases.append(dict(kind="head", head=head, B=B, A=A,
-                                      extreme=["none", "pos", "neg", "mixed"][
-                                          int(rng.integers(4))],
+                                      extreme="none" if r % 2 == 0 else
+                                      ["pos", "neg", "mixed"][int(rng.integers(3))],
                                       shared=bool(rng.integers(2)),
                                       seed=int(rng.integers(1 << 30)), cost=2))
     for i in range(6 * k):
